@@ -28,11 +28,11 @@ theorem inStoryAt_shape (q : Xml → Bool) (cs : List Xml) (sid : Key) (j : Nat)
   · exact hf _ (List.getElem_mem hj) (keyOf_of_isChild hc).1
 
 theorem inStory_shape (q : Xml → Bool) (mid : Option PyExc) (cs : List Xml) (sid : Key)
-    (f : List Xml → Out) (hw : WfKids "story" cs = true)
+    (f : List Xml → Out)
     (hf : ∀ s ∈ cs, s.tag = "story" → (f s.kids).kids.filter q = s.kids.filter q) :
     ItemShape q cs sid (inStory mid cs sid f).kids := by
   unfold inStory
-  rw [findRequired_ok _ _ _ _ hw]
+  rw [findRequired_ok _ _ _ _]
   cases hl : locate "story" cs sid with
   | none => simp only [ItemShape, hl]; rfl
   | some j => exact inStoryAt_shape q cs sid j f hl hf
@@ -42,19 +42,18 @@ abbrev itemQ (k : Kind) (base : Xml) : Xml → Bool :=
   fun c => !isTouched "item" (touchedIds k "item" (namedOf k base)) (namedOf k base).carried c
 
 theorem itemLevel_shape (k : Kind) (rc base : Xml) (mid : Option PyExc)
-    (hk : k.isItemLevel = true) (hw : WfKids "story" rc.kids = true)
-    (hwi : ∀ s ∈ rc.kids, s.tag = "story" → WfKids "item" s.kids = true) :
+    (hk : k.isItemLevel = true) :
     ItemShape (itemQ k base) rc.kids (namedOf k base).story (mergeRc k rc base mid).kids := by
   cases k <;> first | (simp [Kind.isItemLevel] at hk; done) | skip
   case ItemDelete =>
     simp only [mergeRc]
-    apply inStory_shape _ _ _ _ _ hw
+    apply inStory_shape _ _ _ _ _
     intro s hs ht
-    apply deleteLoop_filter _ _ _ _ _ _ _ (hwi s hs ht)
+    apply deleteLoop_filter _ _ _ _ _ _ _
     exact qfalse_ids _ (fun x hx => hx)
   case EAItemDelete =>
     simp only [mergeRc]
-    rw [findChildId_ok _ _ _ hw]
+    rw [findChildId_ok _ _ _]
     cases hl : locate "story" rc.kids (elemId (base.find "element_target") "storyID") with
     | none =>
       have : ItemShape (itemQ .EAItemDelete base) rc.kids
@@ -65,25 +64,25 @@ theorem itemLevel_shape (k : Kind) (rc base : Xml) (mid : Option PyExc)
       simp only
       apply inStoryAt_shape _ _ _ _ _ hl
       intro s hs ht
-      apply deleteLoop_filter _ _ _ _ _ _ _ (hwi s hs ht)
+      apply deleteLoop_filter _ _ _ _ _ _ _
       exact qfalse_ids _ (fun x hx => hx)
   case ItemInsert =>
     simp only [mergeRc]
-    apply inStory_shape _ _ _ _ _ hw
+    apply inStory_shape _ _ _ _ _
     intro s hs ht
     apply insertBefore_filter
     exact qfalse_findall base (fun x hx => hx)
   case EAItemInsert =>
     simp only [mergeRc]
-    apply inStory_shape _ _ _ _ _ hw
+    apply inStory_shape _ _ _ _ _
     intro s hs ht
     apply insertBefore_filter
     exact qfalse_elemsOf _ (fun x hx => hx)
   case ItemReplace =>
     simp only [mergeRc]
-    apply inStory_shape _ _ _ _ _ hw
+    apply inStory_shape _ _ _ _ _
     intro s hs ht
-    rw [findRequired_ok _ _ _ _ (hwi s hs ht)]
+    rw [findRequired_ok _ _ _ _]
     cases hl : locate "item" s.kids (elemId (some base) "itemID") with
     | none => rfl
     | some i =>
@@ -95,9 +94,9 @@ theorem itemLevel_shape (k : Kind) (rc base : Xml) (mid : Option PyExc)
         intro x hx; exact hx
   case EAItemReplace =>
     simp only [mergeRc]
-    apply inStory_shape _ _ _ _ _ hw
+    apply inStory_shape _ _ _ _ _
     intro s hs ht
-    rw [findRequired_ok _ _ _ _ (hwi s hs ht)]
+    rw [findRequired_ok _ _ _ _]
     cases hl : locate "item" s.kids (elemId (base.find "element_target") "itemID") with
     | none => rfl
     | some i =>
@@ -109,15 +108,15 @@ theorem itemLevel_shape (k : Kind) (rc base : Xml) (mid : Option PyExc)
         intro x hx; exact hx
   case EAItemSwap =>
     simp only [mergeRc, textsOf_opt]
-    apply inStory_shape _ _ _ _ _ hw
+    apply inStory_shape _ _ _ _ _
     intro s hs ht
-    apply swapTwo_filter _ _ _ _ _ (hwi s hs ht)
+    apply swapTwo_filter _ _ _ _ _
     exact qfalse_ids _ (fun x hx => hx)
   case EAItemMove =>
     simp only [mergeRc, textsOf_opt]
-    apply inStory_shape _ _ _ _ _ hw
+    apply inStory_shape _ _ _ _ _
     intro s hs ht
-    apply moveMany_filter _ _ _ _ _ _ (hwi s hs ht)
+    apply moveMany_filter _ _ _ _ _ _
     exact qfalse_ids _ (fun x hx => hx)
   case ItemMoveMultiple =>
     simp only [mergeRc]
@@ -129,11 +128,11 @@ theorem itemLevel_shape (k : Kind) (rc base : Xml) (mid : Option PyExc)
     · rename_i sid hsome
       have hst : (namedOf .ItemMoveMultiple base).story = some sid := hsome
       rw [hst]
-      apply inStory_shape _ _ _ _ _ hw
+      apply inStory_shape _ _ _ _ _
       intro s hs ht
       split
       · rfl
-      · apply moveMany_filter _ _ _ _ _ _ (hwi s hs ht)
+      · apply moveMany_filter _ _ _ _ _ _
         exact qfalse_ids _ (fun x hx => hx)
 
 end Mrm
